@@ -81,3 +81,97 @@ func c07RequestStateNotShared(r *core.Run) {
 	r.OK(rule, "pointer fields of dmap.env", "-", "every pointer stored into a request environment is the request's own object or the caller's")
 	r.Floor(rule, stores, 3)
 }
+
+// c07TimestampAfterKeyLock: a read-modify-write stamps what it writes with a time taken
+// AFTER it got the per-key lock. The lock orders the operations on a key; the timestamp is
+// what readers (and the next read-modify-write, which collects primary and backup copies
+// and takes the newest) order the copies by. A timestamp taken before waiting for the lock
+// lets a later writer carry an older stamp: with asynchronous replication a reordered
+// backup write then looks newest, the next operation reads the stale copy and an
+// acknowledged update is lost.
+func c07TimestampAfterKeyLock(r *core.Run) {
+	const rule = "rmw-timestamp-after-lock"
+	p := r.P
+	cnt := 0
+	for _, fn := range p.FuncList {
+		if fn.SSA == nil || skipPkg(fn) || core.RelPkg(fn.Pkg.PkgPath) != dmapPkg {
+			continue
+		}
+		f := fn.SSA
+		locks := findInstrs(f, false, callTo(fnLockerLock))
+		if len(locks) == 0 {
+			continue
+		}
+		// only the sections that write: a put (or a helper that puts) follows the lock
+		// (sections that build their own environment after the lock, like Lease through
+		// Expire, stamp it at that moment; the ones judged here write the caller's env)
+		isWrite := func(in ssa.Instruction) bool {
+			if !callTo(dmapPkg+".(*DMap).put", fnPutOnCluster)(in) {
+				return false
+			}
+			args := in.(ssa.CallInstruction).Common().Args
+			return isParamValue(args[len(args)-1])
+		}
+		writes := findInstrs(f, false, isWrite)
+		if len(writes) == 0 {
+			continue
+		}
+		cnt++
+		lock := locks[0]
+		isStamp := func(in ssa.Instruction) bool {
+			st, ok := in.(*ssa.Store)
+			if !ok || core.LastField(st.Addr) != "timestamp" {
+				return false
+			}
+			c, ok := st.Val.(*ssa.Call)
+			if !ok || methodName(c) != "UnixNano" {
+				return false
+			}
+			now, ok := c.Call.Args[0].(*ssa.Call)
+			return ok && core.CalleeObj(now) != nil && core.QualName(core.CalleeObj(now)) == "time.Now"
+		}
+		stamps := findEventsVia(p, f, isStamp)
+		ok := false
+		for _, s := range stamps {
+			if !core.Dominates(lock, s) {
+				continue
+			}
+			all := true
+			for _, w := range writes {
+				if !core.Dominates(s, w) {
+					all = false
+				}
+			}
+			if all {
+				ok = true
+			}
+		}
+		r.Check(ok, rule, fn.Name, site(r, instrPos(lock)),
+			"the environment's timestamp is set to time.Now() after the key lock is held and before the write",
+			"the write is stamped with a time taken before the key lock was held (the time the request arrived): a call that waited for the lock writes an entry older than the one of the call that overtook it, so with asynchronous replication a stale backup copy can carry the highest timestamp and the next Incr/GetPut starts from it — an acknowledged update is lost")
+	}
+	r.Floor(rule, cnt, 3)
+}
+
+// isParamValue: v is a parameter, or a load of the cell a captured parameter lives in.
+func isParamValue(v ssa.Value) bool {
+	if _, ok := v.(*ssa.Parameter); ok {
+		return true
+	}
+	u, ok := v.(*ssa.UnOp)
+	if !ok || u.Op != token.MUL {
+		return false
+	}
+	al, ok := u.X.(*ssa.Alloc)
+	if !ok || al.Referrers() == nil {
+		return false
+	}
+	for _, ref := range *al.Referrers() {
+		if st, ok := ref.(*ssa.Store); ok && st.Addr == ssa.Value(al) {
+			if _, isPar := st.Val.(*ssa.Parameter); !isPar {
+				return false
+			}
+		}
+	}
+	return true
+}
